@@ -80,6 +80,9 @@ func (c19Prop) genOne(t *Tape) *c19Case {
 
 	ps := &ProbeSpec{HasBool: methods&1 != 0, HasClear: methods&2 != 0, HasDefault: methods&4 != 0}
 	ps.BoolResult = ps.HasBool && !boolFalse
+	if methods == 2 && t.Draw(4) == 0 {
+		ps.Unhashable = true // only Clear besides Set/String: the slice-typed variant
+	}
 	c := &c19Case{}
 	d := &Decl{IsArg: isArg, Kind: KVar, Probe: ps}
 	if isArg {
@@ -127,13 +130,15 @@ func (c19Prop) genOne(t *Tape) *c19Case {
 	nEnv := t.Draw(3)
 	for i := 0; i < nEnv; i++ {
 		d.EnvVars = append(d.EnvVars, i)
-		switch t.Draw(4) {
+		switch t.Draw(5) {
 		case 1:
 			c.Env.Set(i, "")
 		case 2:
 			c.Env.Set(i, "e"+fmt.Sprint(i))
 		case 3:
 			c.Env.Set(i, "e1, e2 ,e3")
+		case 4:
+			c.Env.Set(i, []string{"  > ", "high\n", "\tx", " "}[t.Draw(4)]) // padded: a single-valued type gets it as it is
 		}
 	}
 	if nEnv > 0 && t.Draw(6) == 0 {
@@ -377,6 +382,25 @@ func c19Verdict(c *c19Case, p *Proc, inst *Instance, st *Stats) *Violation {
 	}
 	key := "r/" + c.Decl.Key()
 	log := inst.ProbeLog(key)
+	if !ps.HasClear && !ps.Unhashable {
+		// declaration phase of a single-valued type: whatever it is offered from the environment is the exact content of
+		// one of the listed variables (a list type gets comma-separated, trimmed items: not checked here)
+		for _, call := range log {
+			if call.Run || call.Method != "Set" {
+				continue
+			}
+			exact := false
+			for _, v := range c.Decl.EnvVars {
+				if s, set := c.Env.Get(v); set && s == call.Arg {
+					exact = true
+				}
+			}
+			if !exact {
+				return &Violation{Clause: "env-token-exact", Detail: fmt.Sprintf("at declaration the single-valued type received Set(%q), which is not the content of any listed environment variable", call.Arg),
+					Expected: c.Env.Describe(), Observed: callStrings(log)}
+			}
+		}
+	}
 	got := callStrings(mutating(log, true))
 	exp, fails := expectedProtocol(ps, c.Tokens)
 	ranAction := len(p.Observed()) == 1 && p.Observed()[0] == "ACT:r"
